@@ -1220,9 +1220,10 @@ def judge(form, backend, st, nat, emu, tally):
 _W = {}
 _CFG = {}
 CAP_QUICK = 50
-CAP_THOROUGH = 900
+CAP_THOROUGH = 500
 MAX_WITNESS_PER_SIG = 2
 QUICK_32_STRIDE = 3          # quick tier executes every third admitted 32-bit mode form
+GCC_STRIDE = 3               # thorough tier: the GCC backend runs every third form (and every floating point form)
 
 
 def _load():
@@ -1276,27 +1277,45 @@ def _norm_llvm(line):
     return re.sub(r"\s+", " ", line)
 
 
+FP_GROUPS = ("fp64", "fp32", "fpcvt")
+
+
+def lattice_tier(form, backend, tier):
+    """The GCC backend shares sem.py with the Python one (the C translation itself is C04/C20's subject): in the thorough tier it
+    runs the quick lattice, except for the floating point groups that the Python backend cannot evaluate at all."""
+    if tier == "thorough" and backend == "gcc" and form["group"] not in FP_GROUPS:
+        return "quick"
+    return tier
+
+
 def run_form(form, backends, tier, tally, sigs):
     """Execute every case of @form natively and through miasm; returns violations."""
-    sts, levels = cases(form, tier)
-    nat = _helper().run(form["code"], sts)
     vs = []
-    g = tally.setdefault("by_group", {}).setdefault("%d:%s" % (form["mode"], form["group"]), {"forms": 0, "cases": 0})
-    g["forms"] += 1
-    g["cases"] += len(sts)
-    for n_, st in zip(nat, sts):
-        oc = n_["outcome"]
-        tally.setdefault("native_outcomes", {})
-        tally["native_outcomes"][oc] = tally["native_outcomes"].get(oc, 0) + 1
-        if oc != "ok" or n_["gpr"] != st["gpr"] or n_["xmm"] != st["xmm"] or n_["win"] != st["win"] or \
-                (n_["flags"] ^ st["flags"]) & (STATUS | DF):
-            tally["nontrivial"] = tally.get("nontrivial", 0) + 1
-    tally["distinct_native_results"] = tally.get("distinct_native_results", 0) + len(
-        {(n_["outcome"], n_["flags"], n_["gpr"][0], n_["gpr"][2], n_["xmm"][1], n_["win"][0x80:0x90]) for n_ in nat})
+    natives = {}
     for backend in backends:
+        lt = lattice_tier(form, backend, tier)
+        if lt not in natives:
+            sts, levels = cases(form, lt)
+            nat = _helper().run(form["code"], sts)
+            natives[lt] = (sts, nat)
+            g = tally.setdefault("by_group", {}).setdefault("%d:%s" % (form["mode"], form["group"]), {"forms": 0, "cases": 0})
+            g["forms"] += 1 if len(natives) == 1 else 0
+            g["cases"] += len(sts)
+            for n_, st in zip(nat, sts):
+                oc = n_["outcome"]
+                tally.setdefault("native_outcomes", {})
+                tally["native_outcomes"][oc] = tally["native_outcomes"].get(oc, 0) + 1
+                if oc != "ok" or n_["gpr"] != st["gpr"] or n_["xmm"] != st["xmm"] or n_["win"] != st["win"] or \
+                        (n_["flags"] ^ st["flags"]) & (STATUS | DF):
+                    tally["nontrivial"] = tally.get("nontrivial", 0) + 1
+            tally["distinct_native_results"] = tally.get("distinct_native_results", 0) + len(
+                {(n_["outcome"], n_["flags"], n_["gpr"][0], n_["gpr"][2], n_["xmm"][1], n_["win"][0x80:0x90]) for n_ in nat})
+        sts, nat = natives[lt]
         emu = _emu(form["mode"], backend)
         emu.load(form["code"])
         floaty = False
+        ev = tally.setdefault("evaluations_by_backend", {})
+        ev[backend] = ev.get(backend, 0) + len(sts)
         for st, n_ in zip(sts, nat):
             e_ = emu.run(st)
             tally["evaluations"] = tally.get("evaluations", 0) + 1
@@ -1317,16 +1336,24 @@ def run_form(form, backends, tier, tally, sigs):
 
 
 def _work(shard):
-    """shard = (tier, backends, helper executable, [(mode, group, text, codehex)])"""
+    """shard = (tier, backends, helper executable, [(index, mode, group, text, codehex)])"""
     import time
     t_start = time.time()
     _load()
     tier, backends, exe, items = shard
     _CFG["exe"] = exe
+    if "stdout_silenced" not in _W:
+        import multiprocessing
+        _W["stdout_silenced"] = True
+        if multiprocessing.current_process().name != "MainProcess":
+            # miasm's bn.c prints debugging chatter ("a neg", "b neg") on stdout from the GCC-jitted code
+            fd = os.open(os.devnull, os.O_WRONLY)
+            os.dup2(fd, 1)
+            os.close(fd)
     tally = {}
     sigs = {}
     vs = []
-    for mode, group, text, chex in items:
+    for idx, mode, group, text, chex in items:
         code = bytes.fromhex(chex)
         try:
             form = prepare(mode, group, text, code)
@@ -1338,7 +1365,8 @@ def _work(shard):
             vs.append(violation(sig, "lifting %s [%s] in %d-bit mode raised %s: %s" % (text, chex, mode, type(e).__name__, str(e)[:200]),
                                 {"mode": mode, "backend": "python", "group": group, "asm": text, "code": chex, "lift_only": True}))
             continue
-        vs.extend(run_form(form, backends, tier, tally, sigs))
+        bks = [b for b in backends if b != "gcc" or group in FP_GROUPS or idx % GCC_STRIDE == 0]
+        vs.extend(run_form(form, bks, tier, tally, sigs))
         tally.setdefault("samples", [])
         if len(tally["samples"]) < 1:
             sts, _ = cases(form, tier)
@@ -1421,7 +1449,7 @@ def _run(ctx):
             if ctx.quick and (n32 - 1) % QUICK_32_STRIDE:
                 continue
         kept.append(it)
-    items = kept
+    items = [(i,) + it for i, it in enumerate(kept)]
     outdir = tempfile.mkdtemp(prefix="c18_", dir=native.tmpdir())
     try:
         _CFG["exe"] = build_helper(outdir)
@@ -1446,6 +1474,7 @@ def _run(ctx):
         "evaluations": tally.get("evaluations", 0),
         "distinct_nontrivial": tally.get("nontrivial", 0),
         "distinct_native_results": tally.get("distinct_native_results", 0),
+        "evaluations_by_backend": tally.get("evaluations_by_backend", {}),
         "native_cases": sum(v["cases"] for v in by_group.values()),
         "forms_executed": sum(v["forms"] for v in by_group.values()),
         "forms_64": sum(v["forms"] for k, v in by_group.items() if k.startswith("64:")),
@@ -1476,6 +1505,8 @@ def _run(ctx):
         "exhaustive": True,
         "bounds": {"tier": tier, "backends": backends, "cap_per_form": CAP_QUICK if ctx.quick else CAP_THOROUGH,
                    "start_level": 1 if ctx.quick else 3,
+                   "gcc_backend_forms": "none" if ctx.quick else "every %d-th form and all floating point forms" % GCC_STRIDE,
+                   "gcc_backend_lattice": "none" if ctx.quick else "quick lattice (start level 1, cap %d); floating point groups: thorough lattice" % CAP_QUICK,
                    "value_levels": "3: refsem.boundary(w); 2: 8 values; 1: {0,1,2^(w-1)-1,2^(w-1),2^w-1}; 0: {1,2^w-1}",
                    "unread_flags": "alternating all-clear/all-set from case to case",
                    "start_level_32bit_mode": 1 if ctx.quick else 2,
